@@ -241,8 +241,21 @@ def run_case(case):
         want = 0.5 * float((c * c).sum()) * (ts[1:] - ts[:-1]).unsqueeze(-1).expand_as(lq)
         e_exact = float((lq - want).abs().max()) / max(float(want.abs().max()), 1e-6)
         checks += 1
-        if not e_exact <= 1e-10:
-            return fail("exact_half_c_squared", f"f-h=g c with c={c.tolist()}: logqp != 1/2|c|^2 dt, rel {e_exact:.3e}")
+        # conditioning of the construction itself: the harness forms f = h + g c and the library subtracts h again, so
+        # |g c| is recovered with relative error eps |h| / |g c| (twice that in its square); with full-rank g the
+        # pseudo-inverse adds eps cond(g). A mis-scaled integrand is off by 1e-5 or more.
+        with torch.no_grad():
+            t_mid = ts[0]
+            ystates = ys.reshape(-1, d)[: 4 * B]
+            hh = true_sde.base.h(t_mid, ystates) if hasattr(true_sde, "base") else true_sde.h(t_mid, ystates)
+            gg = (true_sde.base if hasattr(true_sde, "base") else true_sde).g(t_mid, ystates)
+            gc = gg * c if diag else torch.einsum("bij,j->bi", gg, c)
+            small = float(gc.abs().clamp_min(1e-300).min()) if float(c.abs().max()) > 0 else 1.0
+            cond = 1.0 if diag else max(float(torch.linalg.cond(gi)) for gi in gg)
+        tol_exact = 1e-10 + 1e3 * eps * (float(hh.abs().max()) / max(small, 1e-300) + cond)
+        if not e_exact <= tol_exact:
+            return fail("exact_half_c_squared", f"f-h=g c with c={c.tolist()}: logqp != 1/2|c|^2 dt, rel {e_exact:.3e} "
+                                                f"(tolerance {tol_exact:.1e} from the conditioning of the construction)")
     steps = (tm["t1"] - tm["t0"]) / tm["dt"]
     labels = [solve.combo_label(combo), "exact_variant" if case["exact"] else "generic_variant"] + \
         [k for k in ("via_adjoint", "extra", "adaptive", "renamed") if case.get(k)]
